@@ -278,6 +278,100 @@ theorem marker_lookalikes_untouched (skip : Bool) :
       (0, ([88] ++ magic.drop 1 |>.take 5 |> (· ++ [32, 55, 10]))) := by
   cases skip <;> decide
 
+/-! ### a host that is given up on (property C07's outcomes: command timeout, poll/read failure) -/
+
+/-- WHAT C05 MEANS FOR AN ABANDONED STREAM: EVERYTHING READ SO FAR IS RELAYED, INCLUDING AN
+    UNTERMINATED TAIL; NOTHING ELSE.  `script` = the arrivals the poll loop handled before the worker
+    left it -- at ANY point: every command-timeout instant, poll error or scheduling of C07 is some
+    such script -- then `result = DSH_FAILED; rcmd_signal (SIGTERM); break` and `_flush_output`.
+    There is a prefix `x` of the bytes the remote side had written (`x ++ rest`, `rest` = still in
+    the descriptor, never read) such that what pdsh writes for the host is exactly the labelled
+    `x`: its complete lines, then its unterminated rest under the label -- no byte of `x` lost,
+    none of `rest` invented.  (Index-level relay, stream in the domain.) -/
+theorem abandoned_stream_relays_what_was_read (cfg : Cfg) (host t0host : Bytes) (strm : Nat) (readRc : Bool)
+    {sizeMeta : Nat} (hm1 : 1 ≤ sizeMeta) (hm2 : sizeMeta ≤ 800) {a0 : Cbuf.Cbuf}
+    (ha0 : mkIndexBuf sizeMeta = some a0) (script : List Bytes)
+    (hdom : Spec.Dom05 (markerOf readRc) script.flatten = true) :
+    ∃ x rest : Bytes, x ++ rest = script.flatten ∧
+      written (runAbandoned indexOps cfg host t0host strm readRc a0 script).ems =
+        Spec.render (labelPrefix cfg.labels cfg.keep host) x ∧
+      (cfg.tailSplit = false →
+        Spec.c06Ok (labelPrefix cfg.labels cfg.keep host) x
+          ((runAbandoned indexOps cfg host t0host strm readRc a0 script).ems.map Em.bytes) = true) := by
+  obtain ⟨b0, hb0⟩ := mkFifoBuf_some sizeMeta
+  obtain ⟨x, rest, hx, hems, h0⟩ := runAbandoned_closed cfg host strm readRc t0host hm1 hm2 hb0 script hdom
+  rw [runAbandoned_sim idx_sim cfg host t0host strm readRc a0 b0 (idxRel_init (by omega) ha0 hb0) script]
+  have h0t : ∀ b ∈ Spec.tail x, b ≠ 0 := fun b hb => h0 b (mem_of_mem_rest hb)
+  obtain ⟨ht, _⟩ := tailEms_flatten cfg host strm _ (Spec.tail x) (Nat.lt_succ_self _) h0t
+  refine ⟨x, rest, hx, ?_, ?_⟩
+  · unfold written
+    rw [hems, List.map_append, List.flatten_append, ht]
+    unfold Spec.render
+    congr 1
+    simp only [List.map_map, List.flatMap]
+    rfl
+  · intro hfix
+    have hto := tailEms_ok cfg host strm hfix _ (Spec.tail x) (Nat.lt_succ_self _) h0t
+    have hlen : ((Spec.lines x).map
+        (Em.bytes ∘ fun l => (⟨strm, labelPrefix cfg.labels cfg.keep host ++ l⟩ : Em))).length =
+        (Spec.lines x).length := by simp
+    rw [hems, List.map_append, List.map_map]
+    simp only [Spec.c06Ok, List.take_left' hlen, List.drop_left' hlen, Bool.and_eq_true, beq_iff_eq]
+    exact ⟨rfl, hto⟩
+
+/-! ### outside the domain: what the code does with lines over 128 KiB and with NUL bytes
+
+  Not violations of C05 (its text restricts the claim to "text output free of NUL bytes whose
+  lines do not exceed 128 KiB"), but silent: pdsh prints no diagnostic and exits 0.  Measured on
+  the real binary (checks/c05.py, real-process part, evidence `beyond_domain`): a line of 204800
+  bytes comes out 131062 bytes long, its first 73738 bytes are gone; "ab\\0cd\\n" comes out as
+  "h1: ab" (the bytes from the NUL to the newline, the newline included, are gone). -/
+
+/-- LINES OVER 128 KiB LOSE THEIR HEAD.  When the buffer is full at its maximum (131072 unread
+    bytes without a newline) and more input is there, `cbuf_write_from_fd (.., -1, ..)` still asks
+    for min(size, CBUF_CHUNK) bytes and, in the overwrite mode dsh.c leaves the cbuf in, drops as
+    many of the OLDEST bytes as it takes -- `_do_output` ignores the drop count.  This is what
+    `Dom05`'s bound keeps from happening (`descriptor_write_never_drops`); the bound is sharp. -/
+theorem beyond_domain_drops_head (b : PBuf) (hfull : b.f.q.length = b.f.size) (hmax : b.f.size = b.f.maxsize)
+    (hmode : b.f.mode = .wrapMany) (hpos : 0 < b.f.size) (avail : Bytes) (hav : avail ≠ []) (eof : Bool) :
+    (PBuf.wfd b avail eof).2.1 = min (min b.f.size Gen.CBUF_CHUNK) avail.length ∧
+    0 < (PBuf.wfd b avail eof).2.1 ∧
+    (PBuf.wfd b avail eof).2.2.f.q =
+      (b.f.q ++ avail.take (min (min b.f.size Gen.CBUF_CHUNK) avail.length)).drop
+        (min (min b.f.size Gen.CBUF_CHUNK) avail.length) := by
+  have hc : 0 < Gen.CBUF_CHUNK := by decide
+  have hal : 0 < avail.length := List.length_pos_iff.mpr hav
+  have hreq : wfdRequest b.f.size b.f.q.length = min b.f.size Gen.CBUF_CHUNK := by
+    simp [wfdRequest, hfull]
+  have hreq0 : min b.f.size Gen.CBUF_CHUNK ≠ 0 := by omega
+  have hgrown : b.grown = (b.f.size, b.alloc) := by
+    have : ¬ (b.f.size < b.f.maxsize) := by omega
+    simp [PBuf.grown, this]
+  have hne : avail.isEmpty = false := by simpa using hav
+  generalize hk : min (min b.f.size Gen.CBUF_CHUNK) avail.length = k
+  have hk0 : 0 < k := by omega
+  have hkle : k ≤ avail.length := by omega
+  have hadm : Cbuf.Spec.admitSize b.f b.f.size = true := by simp [Cbuf.Spec.admitSize]; omega
+  have hnl : ¬ (k > avail.length) := by omega
+  have hk0' : k ≠ 0 := by omega
+  have hpos' : ¬ ((k : Int) ≤ 0) := by omega
+  have hlen : (b.f.q ++ List.take k avail).length - b.f.size = k := by
+    simp only [List.length_append, List.length_take]; omega
+  simp only [PBuf.wfd, hreq, hreq0, ↓reduceIte, hne, Bool.false_eq_true, hk, hgrown]
+  have hadm' : Cbuf.Spec.admitSize b.f b.f.maxsize = true := by rw [← hmax]; exact hadm
+  have hlen' : (b.f.q ++ List.take k avail).length - b.f.maxsize = k := by rw [← hmax]; exact hlen
+  simp [Cbuf.Spec.writeFromFd, hadm', hpos', hmode, Cbuf.Spec.lossOk, hmax, hk0', hnl, hfull,
+    Cbuf.Spec.lastN, hlen', hk0, Nat.min_eq_left hkle]
+
+/-- A NUL BYTE CUTS THE RECORD.  `%s` stops at the first NUL: of a line taken out of the buffer
+    only the part before its first NUL is written (nothing at all if it starts with NUL); the
+    bytes from the NUL to the end of the line -- the newline included -- are not. -/
+theorem nul_cuts_record (cfg : Cfg) (host : Bytes) (strm : Nat) (rc : Int) (l : Bytes) :
+    (emitLine cfg host strm false rc l).2 =
+      (if (cstr l).isEmpty then [] else [⟨strm, labelPrefix cfg.labels cfg.keep host ++ cstr l⟩]) ∧
+    cstr ([97, 98, 0, 99, 100, 10]) = [97, 98] := by
+  exact ⟨by simp [emitLine], by decide⟩
+
 /-! ### `_extract_rc`: why the marker is excluded from the domain; the two C08 switches
 
   The model carries two switches that belong to property C08 (status extraction), each read off
